@@ -11,7 +11,7 @@ use serde_json::{json, Value};
 use vph::fgen;
 use vph::refdec;
 
-pub const RULE: &str = "every frame of (1) the crate's encoder output over C01 sets (b),(d),(g),(h),(i),(j) (thorough: + (a),(e)), (2) every valid fgen stream within 3 (thorough 4) deviations, (3) every fgen stream with one malformation (valid checksums) on the plain stream and its single deviations, is cut out and wrapped into a one-frame stream whose STREAMINFO leaves the total unknown; Frame::read and the streaming decoder must both accept or both reject it; for accepted frames every subframe expands to exactly block-size samples, inverse decorrelation of those samples equals the streaming decoder's output, and Frame::write reproduces the original bytes whenever the independent decoder reports a minimal-length coded number and zero padding bits";
+pub const RULE: &str = "every frame of (1) the crate's encoder output over C01 sets (b),(d),(g),(h),(i),(j),(k),(l) (thorough: + (a),(e)), (2) every valid fgen stream within 3 (thorough 4) deviations and every stream of the header code-table sweep (all block-size / sample-rate / depth / channel-assignment codes) and single frames carrying coded frame / sample numbers at every length boundary (0x7F/0x80 … 0x7FFFFFFF fixed, … 0xFFFFFFFFF variable), (3) every fgen stream with one malformation (valid checksums) on the plain stream and its single deviations, is cut out and wrapped into a one-frame stream whose STREAMINFO leaves the total unknown; Frame::read and the streaming decoder must both accept or both reject it; for accepted frames every subframe expands to exactly block-size samples, inverse decorrelation of those samples equals the streaming decoder's output, and Frame::write reproduces the original bytes whenever the independent decoder reports a minimal-length coded number and zero padding bits";
 pub const ASSUMPTIONS: &[&str] = &["frames are judged individually under the original STREAMINFO with total/MD5 cleared; stream-level rules (numbering, totals, short-block placement) are C05's business"];
 pub fn bounds(quick: bool) -> Value {
     json!({"crate_output_sets": if quick { "b,d,g,h,i" } else { "a,b,d,e,g,h,i" }, "valid_deviations": if quick { 3 } else { 4 }, "malformed": "1 malformation × ≤1 valid deviation"})
@@ -134,7 +134,7 @@ fn run_stream(acc: &mut Acc, class: &str, bytes: &[u8], frames: &[(usize, usize)
 
 pub fn run(ctx: &Ctx, acc: &mut Acc) {
     // (1) crate output
-    enumerate(ctx, if ctx.quick { "bdghij" } else { "abdeghij" }, &mut |c: &EncCase| {
+    enumerate(ctx, if ctx.quick { "bdghijkl" } else { "abdeghijkl" }, &mut |c: &EncCase| {
         if let Ok(bytes) = encode(c.w, &c.opt, &c.sig, c.pcm) {
             if let Ok(Ok(st)) = guarded(|| refdec::decode(&bytes)) {
                 let frames: Vec<(usize, usize)> = st.frames.iter().map(|f| (f.offset, f.len)).collect();
@@ -154,6 +154,35 @@ pub fn run(ctx: &Ctx, acc: &mut Acc) {
             }
         }
     });
+    // (2b) every frame-header code table entry (gspace::header_table_specs)
+    for (spec, origin, _subset) in crate::gspace::header_table_specs() {
+        if !ctx.mine() {
+            continue;
+        }
+        if let Ok(b) = fgen::build(&spec) {
+            run_stream(acc, "valid-header-tables", &b.bytes, &b.frame_offsets, origin);
+        }
+    }
+    // (2c) coded frame / sample numbers at every UTF-8-style length boundary (1..7 bytes), fixed and variable blocking;
+    //      frames are judged one by one, so the numbers need not be consecutive
+    for variable in [false, true] {
+        for number in [0u64, 1, 0x7F, 0x80, 0x7FF, 0x800, 0xFFFF, 0x1_0000, 0x1F_FFFF, 0x20_0000, 0x3FF_FFFF, 0x400_0000, 0x7FFF_FFFF, 0x8000_0000, 0xF_FFFF_FFFF] {
+            if (!variable && number > 0x7FFF_FFFF) || !ctx.mine() {
+                continue;
+            }
+            for ch in [1u8, 2] {
+                let pcm: Vec<Vec<i32>> = (0..ch as usize).map(|c| crate::gspace::target(0, 16, c, 16, 0, 0)).collect();
+                let mut f = fgen::plain_frame(pcm);
+                f.number = Some(number);
+                let mut spec = fgen::plain_stream(ch, 16, 44100, vec![f]);
+                spec.variable = variable;
+                spec.total = fgen::TotalSpec::Unknown;
+                if let Ok(b) = fgen::build(&spec) {
+                    run_stream(acc, "valid-coded-number", &b.bytes, &b.frame_offsets, json!({"coded_number": number, "variable": variable, "ch": ch}));
+                }
+            }
+        }
+    }
     // (3) malformed grammar space
     let knobs = bad_knobs();
     for_each_deviation(&m, 1, |k| {
